@@ -59,6 +59,15 @@ CANARIES = [
     ('guard-commit-removed', 'C06', 'src/tx.rs', '        if !self.writable() {\n            return Err(Error::ReadOnlyTx);\n        }\n', ''),
     ('get-bucket-always-writable', 'C06', 'src/tx.rs', '            writable: tx.lock.writable(),\n            _phantom: PhantomData,\n        })\n    }\n\n    /// Creates a new bucket', '            writable: true,\n            _phantom: PhantomData,\n        })\n    }\n\n    /// Creates a new bucket'),
     ('guard-wrong-error', 'C06', 'src/bucket.rs', '        if !self.writable {\n            return Err(Error::ReadOnlyTx);\n        }\n        let mut b = self.inner.borrow_mut();\n        if b.deleted {\n            panic!("Cannot delete data', '        if !self.writable {\n            return Err(Error::KeyValueMissing);\n        }\n        let mut b = self.inner.borrow_mut();\n        if b.deleted {\n            panic!("Cannot delete data'),
+    ('open-accept-unaligned-pagesize', 'C16', 'src/db.rs', '        if pagesize % 8 != 0 {\n            panic!("Pagesize must be a multiple of 8 bytes");\n        }\n', ''),
+    ('open-accept-tiny-pagesize', 'C16', 'src/db.rs', '        if pagesize < 1024 {\n            panic!("Pagesize must be 1024 bytes minimum");\n        }\n        // Pages', '        // Pages'),
+    ('init-one-header', 'C15', 'src/db.rs', '    for i in 0..2 {\n        let page = get_page(i);', '    for i in 0..1 {\n        let page = get_page(i);'),
+    ('init-wrong-magic', 'C15', 'src/db.rs', 'const MAGIC_VALUE: u32 = 0x00AB_CDEF;', 'const MAGIC_VALUE: u32 = 0x00AB_CDEE;'),
+    ('init-no-hash', 'C15', 'src/db.rs', '        m.num_pages = 4;\n        m.hash = m.hash_self();\n', '        m.num_pages = 4;\n'),
+    ('init-no-sync', 'C16', 'src/db.rs', '    file.write_all(&buf[..])?;\n    file.flush()?;\n    file.sync_all()?;\n    Ok(file)', '    file.write_all(&buf[..])?;\n    file.flush()?;\n    Ok(file)'),
+    ('init-too-small-file', 'C16', 'src/db.rs', 'file.allocate(pagesize * (num_pages as u64))?;', 'file.allocate(pagesize * ((num_pages - 1) as u64))?;'),
+    ('resize-allocate-less', 'C16', 'src/db.rs', '        file.allocate(new_size)?;', '        file.allocate(new_size / 2)?;'),
+    ('open-existing-rewrites-header', 'C06', 'src/db.rs', '            open_file(path, false, self.flags.direct_writes)?\n        };', '            { let mut f = open_file(path, false, self.flags.direct_writes)?; f.flush()?; f }\n        };'),
 ]
 
 
